@@ -635,6 +635,17 @@ func evalSim(r *runner, u *parseUnit, c ParseCase, prop string) string {
 	if logString(o.Log) != logString(sim.Log) {
 		return fmt.Sprintf("grammar:\n%s\ninput %v: action calls observed:\n  %s\nthe reference machine performs:\n  %s", u.src, c.Toks, logString(o.Log), logString(sim.Log))
 	}
+	for k := range o.Log {
+		if k < len(sim.Log) {
+			for a := range o.Log[k].Args {
+				if a < len(sim.Log[k].Args) {
+					if m := expectedMismatch(o.Log[k].Args[a], sim.Log[k].Args[a]); m != "" {
+						return fmt.Sprintf("grammar:\n%s\ninput %v: call %s: %s", u.src, c.Toks, o.Log[k].Tag, m)
+					}
+				}
+			}
+		}
+	}
 	if sim.Accepted && !o.Result.Equal(sim.Result) {
 		return fmt.Sprintf("grammar:\n%s\ninput %v: result %s, reference %s", u.src, c.Toks, o.Result, sim.Result)
 	}
@@ -890,6 +901,56 @@ func evalC16P(r *runner, u *parseUnit, c ParseCase) string {
 		})
 	}
 	return ""
+}
+
+// expectedMismatch walks an observed value and the reference's value of the
+// same shape in parallel: the expected-token list of every error attribute, as
+// a set, must be the action row of the state the error occurred in or that of
+// the recovery state (the property does not say which; gocc reports the latter).
+func expectedMismatch(got, want subj.Val) string {
+	switch {
+	case got.Kind == "err" && want.Kind == "err" && got.Err != nil && want.Err != nil:
+		if len(want.Err.ExpectedAlt) > 0 {
+			g := append([]string{}, got.Err.Expected...)
+			sort.Strings(g)
+			g = uniqStrings(g)
+			ok := false
+			for _, alt := range want.Err.ExpectedAlt {
+				if strings.Join(alt, "\x00") == strings.Join(g, "\x00") {
+					ok = true
+				}
+			}
+			if !ok {
+				return fmt.Sprintf("the error attribute for token #%d lists the expected tokens %q; the action row of the state the error occurred in has %q, that of the recovery state %q", got.Err.ErrTok, got.Err.Expected, want.Err.ExpectedAlt[0], want.Err.ExpectedAlt[len(want.Err.ExpectedAlt)-1])
+			}
+		}
+		for i := range got.Err.Symbols {
+			if i < len(want.Err.Symbols) {
+				if m := expectedMismatch(got.Err.Symbols[i], want.Err.Symbols[i]); m != "" {
+					return m
+				}
+			}
+		}
+	case got.Kind == "node" && want.Kind == "node":
+		for i := range got.Args {
+			if i < len(want.Args) {
+				if m := expectedMismatch(got.Args[i], want.Args[i]); m != "" {
+					return m
+				}
+			}
+		}
+	}
+	return ""
+}
+
+func uniqStrings(xs []string) []string {
+	var out []string
+	for i, x := range xs {
+		if i == 0 || x != xs[i-1] {
+			out = append(out, x)
+		}
+	}
+	return out
 }
 
 func hasErrAttr(o subj.ParseObs) bool {
